@@ -20,6 +20,7 @@ class Conn(object):
         self.stanzas = []          # decoded client stanzas
         self.raw = bytearray()     # every byte read from the socket
         self.sent_raw = bytearray()  # every byte written to the socket
+        self.answered = set()
         self.tail_on_eof = None      # bytes to write when the client half-closes (the rest of a frame that was on its way)
         self.seen = 0
         self.lock = threading.Lock()
@@ -41,9 +42,10 @@ class Conn(object):
 
 
 class LoopServer(threading.Thread):
-    def __init__(self, auto_success=True, slow_reader=False):
+    def __init__(self, auto_success=True, slow_reader=False, answer_uploads=False):
         super(LoopServer, self).__init__(name="verif-loopserver")
         self.daemon = True
+        self.answer_uploads = answer_uploads    # confirm key uploads (iq set encrypt) like the real server
         self.slow_reader = slow_reader      # small receive window, small slow reads: the client's writes go partial (backlog)
         self.lsock = socket.socket()
         self.lsock.setsockopt(socket.SOL_SOCKET, socket.SO_REUSEADDR, 1)
@@ -118,6 +120,11 @@ class LoopServer(threading.Thread):
                     except refcodec.FormatError as e:
                         self.errors.append(str(e))
                     c.seen += 1
+                    if self.answer_uploads and c.stanzas:
+                        t_ = c.stanzas[-1]
+                        if t_[0] == "iq" and t_[1].get("xmlns") == "encrypt" and t_[1].get("type") == "set" and t_[1].get("id") not in c.answered:
+                            c.answered.add(t_[1].get("id"))
+                            c.send_stanza(("iq", {"id": t_[1]["id"], "type": "result", "from": "s.whatsapp.net"}, [], None))
                 if c.srv.state == "transport" and not c.greeted and self.auto_success:
                     c.greeted = True
                     c.send_stanza(("success", {"t": "1600000000", "props": "4", "creation": "1500000000", "location": "frc"}, [], None))
